@@ -65,13 +65,13 @@ type msgKey struct {
 
 // tap: a subscriber with a channel so large that the hub never finds it full; it copies every message at once.
 type tap struct {
-	cl    *hub.Client
-	mu    sync.Mutex
-	msgs  [][]byte
-	index map[msgKey]int
-	bytes int
-	last  time.Time
-	stop  chan struct{}
+	cl     *hub.Client
+	mu     sync.Mutex
+	msgs   [][]byte
+	index  map[msgKey]int
+	bytes  int
+	last   time.Time
+	stop   chan struct{}
 	synced chan struct{}
 }
 
@@ -340,7 +340,10 @@ func runHubStream(s *Stream) {
 			o.Err = "dial: " + err.Error()
 			return
 		}
-		write = func(b []byte) error { wsLens = append(wsLens, len(b)); return c.WriteMessage(websocket.BinaryMessage, b) }
+		write = func(b []byte) error {
+			wsLens = append(wsLens, len(b))
+			return c.WriteMessage(websocket.BinaryMessage, b)
+		}
 		closeIn = func() { c.Close() }
 	}
 	time.Sleep(3 * time.Millisecond)
